@@ -53,6 +53,16 @@ class TClock:
             # grid up to rounding error; which side ceil() falls on is not
             # defined by the property
             raise Ambiguous('reference beat on the grid up to rounding')
+        t = self.tempo
+        pow2 = lambda n: n & (n - 1) == 0
+        if ratio == round(ratio) and ref != self.base_beats and not (
+                pow2(t.numerator) and pow2(t.denominator)):
+            # exactly on the grid in rational arithmetic, but the library
+            # converts seconds to beats in floats with a tempo (or beat
+            # duration) that has no exact double: the reference beat may
+            # come out one ulp above the grid point (then the next grid
+            # point is taken) or not
+            raise Ambiguous('grid point through an inexact tempo')
         k = math.ceil(ratio)
         return k * quant + self.base_bar_beat + phase
 
